@@ -485,6 +485,8 @@ func takePenalty(currentDB *state.StateDB, val *state.Validator, penaltyAmount *
 				if fromDeposit.Sign() > 0 {
 					updateCounter(fromDeposit, newVal, d.Token, d.Stake)
 					updatedDFrom = append(updatedDFrom, d) //cache
+					// keep the delegator's account (delegation balance and links) in step with the record
+					currentDB.UpdateDelegator(d.Delegator, val.MainAddress(), new(big.Int).Neg(fromDeposit), d.Empty())
 					pRecords = append(pRecords, &PenaltyRecord{
 						Address: d.Delegator,
 						Amount:  new(big.Int).Set(fromDeposit),
